@@ -90,6 +90,10 @@ def check_case(ctx, case):
     m = case["magnitude"]
     extra = case.get("extra_categories")
     before = monitors.snapshot_continuum(ref)
+    if case.get("magnitude_type") == "float32":
+        m = np.float32(m)
+    elif case.get("magnitude_type") == "float64":
+        m = np.float64(m)
     try:
         cst = CorpusShufflingTool(m, ref, categories=extra)
     except Exception as e:
@@ -102,8 +106,19 @@ def check_case(ctx, case):
     np.random.seed(case["np_seed"])
     n_ref = len(ref_units)
 
+    def annotators_arg():
+        a = case["annotators"]
+        if not isinstance(a, list):
+            return a
+        kind = case.get("annotators_as", "list")
+        if kind == "generator":
+            return (x for x in a)            # any iterable is accepted by the signature
+        if kind == "tuple":
+            return tuple(a)
+        return list(a)
+
     def fresh():
-        return cst.corpus_from_reference(case["annotators"] if not isinstance(case["annotators"], list) else list(case["annotators"]))
+        return cst.corpus_from_reference(annotators_arg())
 
     base = units_by_annotator(fresh())
     ctx.count("M-CORPUS")
@@ -197,7 +212,7 @@ def check_case(ctx, case):
             continue
         include = case.get("include_ref", False) and (sum(flags) % 2 == 0)
         try:
-            corpus = cst.corpus_shuffle(case["annotators"] if not isinstance(case["annotators"], list) else list(case["annotators"]),
+            corpus = cst.corpus_shuffle(annotators_arg(),
                                         shift=shift, false_pos=fpos, false_neg=fneg, split=split, cat_shuffle=cat, include_ref=include)
         except Exception as e:
             ctx.fail_exc(f"corpus_shuffle:raises:{type(e).__name__}", e, monitor="M-CORPUS")
@@ -219,7 +234,7 @@ def check_case(ctx, case):
             check_perturbation(pname, fn, fresh(), m2, f" (tool magnitude changed from {m} to {m2})")
         if m2 == 0:
             try:
-                corpus = cst.corpus_shuffle(case["annotators"] if not isinstance(case["annotators"], list) else list(case["annotators"]),
+                corpus = cst.corpus_shuffle(annotators_arg(),
                                             shift=True, false_pos=True, false_neg=True, split=True, cat_shuffle=None not in allowed)
                 got = units_by_annotator(corpus)
                 ctx.count("M-MAGNITUDE-0")
@@ -266,7 +281,9 @@ def gen_case(ctx):
     extra = rng.choice([None, None, ["extra1"], ["zz", "a"]]) if not unlabelled else None
     return {"reference": cspec, "magnitude": m, "annotators": annotators, "extra_categories": extra,
             "include_ref": rng.random() < 0.5, "np_seed": rng.randrange(2 ** 31),
-            "then_magnitude": rng.choice([None, 0.0, 0.0, rng.random()])}
+            "then_magnitude": rng.choice([None, 0.0, 0.0, rng.random()]),
+            "annotators_as": rng.choice(["list", "list", "tuple", "generator"]),
+            "magnitude_type": rng.choice(["float", "float", "float", "float64", "float32"])}
 
 
 def run(ctx):
